@@ -30,6 +30,9 @@ from funsor.terms import Number
 VARS = ["a", "b", "c", "d"]
 PLATES = ["i", "j", "k"]
 EINSUM_BACKEND = {"add-mul": "numpy", "logaddexp-add": "funsor.einsum.numpy_log", "max-add": "funsor.einsum.numpy_map"}
+# the five shared semirings plus (min, mul) on non-negative data: six in all
+SEMIRINGS = dict(SEMIRINGS)
+SEMIRINGS["min-mul"] = (ops.min, ops.mul, "min-mul", "nonneg-int")
 SRS = list(SEMIRINGS)
 
 
@@ -116,6 +119,8 @@ def sr_ops(sr):
         return min, (lambda a, b: a + b), float("inf"), 0
     if wire == "max-mul":
         return max, (lambda a, b: a * b), 0, 1
+    if wire == "min-mul":
+        return min, (lambda a, b: a * b), float("inf"), 1
     raise ValueError(wire)
 
 
@@ -222,6 +227,67 @@ def canonical_small_graphs():
             best = min(tuple(sorted(tuple(sorted(m[n] for n in f)) for f in g)) for m in perms)
             seen.add(best)
     return sorted(seen)
+
+
+NAMES6 = ["a", "b", "c", "i", "j", "k"]
+
+
+def _perm_tables6():
+    tabs = []
+    for pv in itertools.permutations(range(3)):
+        for pp in itertools.permutations(range(3)):
+            m = list(pv) + [3 + x for x in pp]
+            tab = []
+            for mask in range(64):
+                out = 0
+                for b in range(6):
+                    if mask >> b & 1:
+                        out |= 1 << m[b]
+                tab.append(out)
+            tabs.append(tab)
+    return tabs
+
+
+def canonical_plate_graphs(nf):
+    """All multisets of exactly `nf` factors over variables a,b,c and plates i,j,k, up to renaming of
+    variables among themselves and plates among themselves (16 / 218 / 2804 / 33963 shapes for nf=1..4).
+    This enumerates every plate structure on <= 3 plates: nested chains, sibling plates, incomparable
+    ordinals, variables shared only by factors in sibling contexts (ordinal = a plate set that holds no
+    factor initially, so eliminating a leaf creates a factor at a NEW ordinal), and the intractable ones."""
+    tabs = _perm_tables6()
+    seen = set()
+    for g in itertools.combinations_with_replacement(range(64), nf):
+        seen.add(min(tuple(sorted(t[m] for m in g)) for t in tabs))
+    return [[tuple(n for b, n in enumerate(NAMES6) if m >> b & 1) for m in shape] for shape in sorted(seen)]
+
+
+def new_ordinal_shape(factors, elim, plates):
+    """True if some summed variable's ordinal is a plate set under which no factor is filed initially
+    (the loop will create that key while it runs)."""
+    _, _, ords, O = ordinals(factors, elim, plates)
+    return any(o not in ords for o in O.values())
+
+
+def fit_sizes(rng, factors, elim, plates, cap):
+    """sizes (mostly 2) under which the literal unrolling stays below `cap`; None if impossible"""
+    names = sorted(set(n for f in factors for n in f))
+    sizes = {n: 2 for n in names}
+    if names and rng.random() < 0.15:
+        sizes[rng.choice(names)] = 3
+    for _ in range(12):
+        g = Graph(factors, sizes, [None] * len(factors), "add-mul")
+        joint, inst = unrolled_size(g, elim, plates)
+        npts = int(np.prod([sizes[n] for n in names if n not in elim])) if names else 1
+        if joint * inst * npts <= cap:
+            return sizes
+        big = [n for n in names if sizes[n] > 1]
+        if not big:
+            return None
+        # shrink a plate first (the number of copies is exponential in plate sizes)
+        pl = [n for n in big if n in plates and n in elim]
+        n = rng.choice(pl or big)
+        sizes[n] -= 1
+    return None
 
 
 INTRACTABLE_TEMPLATES = [
@@ -663,6 +729,88 @@ def replay(ctx, doc):
     return replay_case(doc["witness"])
 
 
+
+# --------------------------------------------------------------------------------------
+# translator: the scheduling of the elimination loops, regenerated from source on every run
+# --------------------------------------------------------------------------------------
+
+LOOP_FUNCS = ["partial_sum_product", "modified_partial_sum_product", "dynamic_partial_sum_product"]
+
+
+def _loop_entry(fn_node):
+    """Describe the loop of `fn_node` that consumes `ordinal_to_factors`."""
+    import ast
+    loops = [n for n in fn_node.body if isinstance(n, (ast.While, ast.For))
+             and "ordinal_to_factors" in ast.unparse(n)]
+    # the elimination loop is the last top-level loop mentioning ordinal_to_factors whose body pops from it
+    loops = [n for n in loops if any("ordinal_to_factors.pop" in ast.unparse(b) for b in n.body)]
+    if not loops:
+        return dict(kind="none", test="", select="", pop="", reinsert=[])
+    loop = loops[-1]
+    kind = "while" if isinstance(loop, ast.While) else "for"
+    test = ast.unparse(loop.test) if kind == "while" else f"{ast.unparse(loop.target)} in {ast.unparse(loop.iter)}"
+    body = loop.body
+    select = ast.unparse(body[0]) if body else ""
+    pop = ast.unparse(body[1]) if len(body) > 1 else ""
+    reinsert = []
+    for n in ast.walk(loop):
+        if (isinstance(n, ast.Call) and isinstance(n.func, ast.Attribute) and n.func.attr == "append"
+                and isinstance(n.func.value, ast.Subscript)
+                and ast.unparse(n.func.value.value) == "ordinal_to_factors"):
+            reinsert.append(ast.unparse(n.func.value.slice))
+    # anything else that is appended to / mutated as a schedule shows up here
+    others = sorted({ast.unparse(n.func.value) for n in ast.walk(loop)
+                     if isinstance(n, ast.Call) and isinstance(n.func, ast.Attribute) and n.func.attr == "append"
+                     and isinstance(n.func.value, ast.Name)} - {"results", "remaining"})
+    return dict(kind=kind, test=test, select=select, pop=pop, reinsert=sorted(set(reinsert)), others=others)
+
+
+def extract(ctx):
+    """Regenerate lean/FunsorVerif/Gen/C09Loop.lean from /repo/funsor/sum_product.py: for each of the three
+    elimination functions, the loop construct, its condition, the leaf-selection statement, the pop and the
+    keys factors are re-inserted under.  Cross-checked against the source of the live function objects."""
+    import ast
+    import inspect
+    import textwrap
+    from ..common import REPO, LEAN
+    import funsor.sum_product as sp
+    src = (REPO / "funsor" / "sum_product.py").read_text()
+    tree = ast.parse(src)
+    entries = []
+    for name in LOOP_FUNCS:
+        node = next((n for n in tree.body if isinstance(n, ast.FunctionDef) and n.name == name), None)
+        if node is None:
+            entries.append((name, dict(kind="missing", test="", select="", pop="", reinsert=[], others=[])))
+            continue
+        e = _loop_entry(node)
+        try:
+            live = ast.parse(textwrap.dedent(inspect.getsource(getattr(sp, name)))).body[0]
+            if _loop_entry(live) != e:
+                ctx.infra_errors.append(f"C09 extract: live {name} differs from the file on disk")
+        except (OSError, TypeError, AttributeError) as ex:
+            ctx.infra_errors.append(f"C09 extract: cannot read live source of {name}: {ex}")
+        entries.append((name, e))
+
+    def q(x):
+        return '"' + x.replace("\\", "\\\\").replace('"', '\\"') + '"'
+    lines = ["/- GENERATED by fv/harness/c09.py:extract from /repo/funsor/sum_product.py on every run. Do not edit. -/",
+             "namespace FV.Gen.C09", "",
+             "structure LoopEntry where", "  fn : String", "  kind : String", "  test : String",
+             "  select : String", "  pop : String", "  reinsert : List String", "  otherAppends : List String",
+             "  deriving DecidableEq, Repr", "",
+             "/-- the elimination loops of funsor/sum_product.py, as written -/",
+             "def loops : List LoopEntry := ["]
+    for k, (name, e) in enumerate(entries):
+        lines.append(f"  ⟨{q(name)}, {q(e['kind'])}, {q(e['test'])}, {q(e['select'])}, {q(e['pop'])}, "
+                     f"[{', '.join(q(x) for x in e['reinsert'])}], [{', '.join(q(x) for x in e.get('others', []))}]⟩"
+                     + ("," if k + 1 < len(entries) else ""))
+    lines += ["]", "", "end FV.Gen.C09", ""]
+    out = LEAN / "FunsorVerif" / "Gen" / "C09Loop.lean"
+    txt = "\n".join(lines)
+    if not out.exists() or out.read_text() != txt:
+        out.write_text(txt)
+    ctx.extra["loop_table"] = {n: e for n, e in entries}
+
 # --------------------------------------------------------------------------------------
 # streams
 # --------------------------------------------------------------------------------------
@@ -742,15 +890,40 @@ def clean_cases(ctx, volume=1):
         else:
             elims = [list(names)]
             if names:
-                elims.append(gen_elim(rng, names))
-                elims.append([n for n in names if rng.random() < 0.5])
+                elims.append(gen_elim(rng, names) if rng.random() < 0.5 else [n for n in names if rng.random() < 0.5])
         for elim in elims:
             sizes = {n: 2 for n in names} if rng.random() < 0.6 else {n: rng.choice([1, 2]) for n in names}
             g = make_graph(rng, [tuple(f) for f in shape], sizes, rng.choice(SRS))
             ctx.count("stratum:exhaustive-small")
             yield variants_for(rng, g, plates, elim, full=False)
+    # --- every plate structure on <= 3 plates ------------------------------------------------
+    cap = 30000 if not thorough else 200000
+    plates3 = ["i", "j", "k"]
+    shapes3 = [sh for nf in (1, 2, 3) for sh in canonical_plate_graphs(nf)]
+    if thorough:
+        shapes3 += canonical_plate_graphs(4)
+    else:
+        for _ in range(800 * volume):      # 4 factors: sampled in the quick tier
+            shapes3.append([tuple(n for b, n in enumerate(NAMES6) if m >> b & 1)
+                            for m in (rng.randrange(64) for _ in range(4))])
+    for si, shape in enumerate(shapes3):
+        names = sorted(set(n for f in shape for n in f))
+        elims = [list(names)]
+        if names and (thorough or rng.random() < 0.5):
+            elims.append(gen_elim(rng, names))
+        for elim in elims:
+            sizes = fit_sizes(rng, shape, elim, plates3, cap)
+            if sizes is None:
+                ctx.count("dropped:unrolling-too-large")
+                continue
+            # all six semirings in rotation
+            g = make_graph(rng, [tuple(f) for f in shape], sizes, SRS[(si + len(elim)) % len(SRS)])
+            ctx.count("stratum:plate-structures-3")
+            if new_ordinal_shape(g.factors, elim, plates3):
+                ctx.count("plate-structures-3:creates-new-ordinal")
+            yield variants_for(rng, g, plates3, elim, full=False)
     # --- random larger ---------------------------------------------------------------------
-    n = (1000 if not thorough else 15000) * volume
+    n = (700 if not thorough else 15000) * volume
     made = 0
     while made < n:
         factors, sizes, plates = gen_random_graph(rng, ctx.tier)
@@ -763,7 +936,10 @@ def clean_cases(ctx, volume=1):
 
 
 def correspond(ctx):
-    ctx.rule = ("(1) every multiset of <= 3 factors over 3 variables and 2 plates up to renaming (1018 shapes), sizes 1-2, "
+    ctx.rule = ("(0) EVERY plate structure: all multisets of <= 3 factors (thorough: <= 4; quick samples 800 with 4) over "
+                "3 variables and 3 plates up to renaming (3038 / 37001 shapes), full elimination (+ a random eliminate set), "
+                "sizes fitted under the unrolling cap, six semirings in rotation; "
+                "(1) every multiset of <= 3 factors over 3 variables and 2 plates up to renaming (1018 shapes), sizes 1-2, "
                 "with full elimination + 2 random eliminate sets (quick) / every eliminate set (thorough), random "
                 "semiring and data, partial_sum_product plus one other entry point each; (2) random graphs <= 5 "
                 "factors / 4 variables / 3 plates of sizes 1-3 incl. templates that reach `intractable!`, every entry "
